@@ -40,6 +40,11 @@ def chunks {α : Type} (w : Nat) (f : Nat → α) : Nat → Array α
   | 0 => #[]
   | k + 1 => chunks w f k ++ Array.ofFn (n := w) fun i => f (w * k + i.val)
 
+/-- output of a loop whose iteration `k` appends the block `g k` -/
+def chunksA {α : Type} (g : Nat → Array α) : Nat → Array α
+  | 0 => #[]
+  | k + 1 => chunksA g k ++ g k
+
 /-- scalar loop `for i < n` -/
 def scalarLoop {α : Type} (n : Nat) (f : Nat → α) : Array α := Array.ofFn (n := n) fun i => f i.val
 
@@ -261,16 +266,16 @@ def permutevar (a idx : V8) : V8 :=
   ⟨a.get (idx.l0 % 8), a.get (idx.l1 % 8), a.get (idx.l2 % 8), a.get (idx.l3 % 8),
    a.get (idx.l4 % 8), a.get (idx.l5 % 8), a.get (idx.l6 % 8), a.get (idx.l7 % 8)⟩
 /-- the 64-bit lane `k` (0..3) -/
-def q (a : V8) (k : Nat) : Nat := a.get (2 * k) + 4294967296 * a.get (2 * k + 1)
+def q (a : V8) (k : Nat) : Nat :=
+  match k with
+  | 0 => a.l0 + 4294967296 * a.l1
+  | 1 => a.l2 + 4294967296 * a.l3
+  | 2 => a.l4 + 4294967296 * a.l5
+  | _ => a.l6 + 4294967296 * a.l7
 /-- build from four 64-bit lanes -/
 def ofQ (q0 q1 q2 q3 : Nat) : V8 :=
   ⟨q0 % 4294967296, q0 / 4294967296 % 4294967296, q1 % 4294967296, q1 / 4294967296 % 4294967296,
    q2 % 4294967296, q2 / 4294967296 % 4294967296, q3 % 4294967296, q3 / 4294967296 % 4294967296⟩
-/-- lane-wise map on the four 64-bit lanes (`_mm256_*_pd`, `_mm256_*_epi64`) -/
-def mapQ (f : Nat → Nat) (a : V8) : V8 := ofQ (f (a.q 0)) (f (a.q 1)) (f (a.q 2)) (f (a.q 3))
-def map2Q (f : Nat → Nat → Nat) (a b : V8) : V8 :=
-  ofQ (f (a.q 0) (b.q 0)) (f (a.q 1) (b.q 1)) (f (a.q 2) (b.q 2)) (f (a.q 3) (b.q 3))
-def qArray (a : V8) : Array Nat := #[a.q 0, a.q 1, a.q 2, a.q 3]
 end V8
 
 /-- int32 → its uint32 bit pattern -/
@@ -327,8 +332,11 @@ def cplxFromAnyIter (C R : Nat) (re im : V8) : Array Nat :=
   let cplb := V8.perm31 tmpa tmpb
   let cplc := V8.perm20 tmpc tmpd
   let cpld := V8.perm31 tmpc tmpd
-  let sub (v : V8) := V8.mapQ (fun a => F64.sub a R) v
-  (sub cpla).qArray ++ (sub cplb).qArray ++ (sub cplc).qArray ++ (sub cpld).qArray
+  -- _mm256_storeu_pd(out[k], _mm256_sub_pd(_mm256_castsi256_pd(cpl?), R)): 4 doubles per register
+  #[F64.sub (cpla.q 0) R, F64.sub (cpla.q 1) R, F64.sub (cpla.q 2) R, F64.sub (cpla.q 3) R,
+    F64.sub (cplb.q 0) R, F64.sub (cplb.q 1) R, F64.sub (cplb.q 2) R, F64.sub (cplb.q 3) R,
+    F64.sub (cplc.q 0) R, F64.sub (cplc.q 1) R, F64.sub (cplc.q 2) R, F64.sub (cplc.q 3) R,
+    F64.sub (cpld.q 0) R, F64.sub (cpld.q 1) R, F64.sub (cpld.q 2) R, F64.sub (cpld.q 3) R]
 
 def loadI32x8 (x : Array Int) (off : Nat) : V8 :=
   ⟨u32 (x.getD off 0), u32 (x.getD (off + 1) 0), u32 (x.getD (off + 2) 0), u32 (x.getD (off + 3) 0),
@@ -336,7 +344,7 @@ def loadI32x8 (x : Array Int) (off : Nat) : V8 :=
 
 /-- `cplx_from_any_fma`: `m/8` iterations, each writes 16 doubles (nothing at all is written when `m < 8`) -/
 def cplxFromAnyAvx (C R : Nat) (m : Nat) (x : Array Int) : Array Nat :=
-  (List.range (m / 8)).foldl (fun acc i => acc ++ cplxFromAnyIter C R (loadI32x8 x (8 * i)) (loadI32x8 x (m + 8 * i))) #[]
+  chunksA (fun i => cplxFromAnyIter C R (loadI32x8 x (8 * i)) (loadI32x8 x (m + 8 * i))) (m / 8)
 
 def cplxFromZnx32Avx (m : Nat) (x : Array Int) : Array Nat := cplxFromAnyAvx ZNX32_C ZNX32_R m x
 def cplxFromTnx32Avx (m : Nat) (x : Array Int) : Array Nat := cplxFromAnyAvx TNX32_C TNX32_R m x
@@ -362,20 +370,16 @@ def toTnx32R (divisor : Nat) : Nat := mul (add D_HALF (ofInt 1572864)) divisor
 /-- one lane of `cplx_to_tnx32_avx2_fma` after the shuffles: low 32 bits of `x + R`, top bit flipped -/
 def cplxToTnx32AvxLane (R x : Nat) : Int := s32 ((add x R % 4294967296) ^^^ 2147483648)
 
-def loadD4 (x : Array Nat) (off : Nat) : V8 :=
-  V8.ofQ (x.getD off 0) (x.getD (off + 1) 0) (x.getD (off + 2) 0) (x.getD (off + 3) 0)
+/-- `or(and(a, 0xFFFFFFFF), slli_epi64(b, 32))` on one 64-bit lane -/
+def mixq (p q : Nat) : Nat := (p &&& 4294967295) ||| ((q * 4294967296) % 18446744073709551616)
 
-/-- one iteration of `cplx_to_tnx32_avx2_fma`: 4 registers of 4 doubles → (re register, im register) -/
-def cplxToTnx32Iter (R : Nat) (cpla cplb cplc cpld : V8) : V8 × V8 :=
-  let addR (v : V8) := V8.mapQ (fun a => add a R) v
-  let icpla := addR cpla
-  let icplb := addR cplb
-  let icplc := addR cplc
-  let icpld := addR cpld
-  -- or(and(a, 0xFFFFFFFF), slli_epi64(b, 32))
-  let mix (a b : V8) := V8.map2Q (fun p q => (p &&& 4294967295) ||| ((q * 4294967296) % 18446744073709551616)) a b
-  let icpla := mix icpla icplb
-  let icplc := mix icplc icpld
+/-- one iteration of `cplx_to_tnx32_avx2_fma`: the 16 doubles `d 0 … d 15` (4 registers `cpla..cpld` of 4
+    doubles) → (re register, im register) of 8 × uint32 -/
+def cplxToTnx32Iter (R : Nat) (d : Nat → Nat) : V8 × V8 :=
+  let a (t : Nat) := add (d t) R                 -- _mm256_add_pd(cpl?, R), as 64-bit lanes
+  -- icpla = or(and(icpla, MASK), slli(icplb, 32)); icplc likewise from icplc, icpld
+  let icpla := V8.ofQ (mixq (a 0) (a 4)) (mixq (a 1) (a 5)) (mixq (a 2) (a 6)) (mixq (a 3) (a 7))
+  let icplc := V8.ofQ (mixq (a 8) (a 12)) (mixq (a 9) (a 13)) (mixq (a 10) (a 14)) (mixq (a 11) (a 15))
   let S := V8.splat 2147483648
   let icpla := V8.xor icpla S
   let icplc := V8.xor icplc S
@@ -387,10 +391,9 @@ def cplxToTnx32Iter (R : Nat) (cpla cplb cplc cpld : V8) : V8 × V8 :=
 /-- `cplx_to_tnx32_avx2_fma`: `m/8` iterations; output `re[0..m) ++ im[0..m)` (for `m < 8` nothing is written) -/
 def cplxToTnx32Avx (m divisor : Nat) (x : Array Nat) : Array Int :=
   let R := toTnx32R divisor
-  let its := (List.range (m / 8)).map fun i =>
-    cplxToTnx32Iter R (loadD4 x (16 * i)) (loadD4 x (16 * i + 4)) (loadD4 x (16 * i + 8)) (loadD4 x (16 * i + 12))
-  let re := its.foldl (fun acc p => acc ++ p.1.toArray) #[]
-  let im := its.foldl (fun acc p => acc ++ p.2.toArray) #[]
+  let it (i : Nat) := cplxToTnx32Iter R (fun t => x.getD (16 * i + t) 0)
+  let re := chunksA (fun i => (it i).1.toArray) (m / 8)
+  let im := chunksA (fun i => (it i).2.toArray) (m / 8)
   (re ++ im).map s32
 
 /-- `init_cplx_to_tnx32_precomp`: `none` = error; `some true` = avx variant -/
